@@ -7,4 +7,6 @@ require (
 	golang.org/x/exp v0.0.0-20240604190554-fc45aab8b7f8
 )
 
+require github.com/anishathalye/porcupine v1.3.0
+
 replace github.com/sealdice/dicescript => /repo
